@@ -6,6 +6,8 @@ package main
 
 import (
 	"bytes"
+	"encoding/binary"
+	"encoding/hex"
 	"encoding/json"
 	"fmt"
 	"github.com/ipld/go-car/v2/index"
@@ -15,6 +17,7 @@ import (
 	"path/filepath"
 	"runtime"
 	"sort"
+	"strconv"
 	"strings"
 	"sync"
 )
@@ -34,6 +37,9 @@ type cliCase struct {
 	RecLow      [][]any             `json:"reclow"`
 	RecHigh     [][]any             `json:"rechigh"`
 	List        []string            `json:"list"`
+	DetOk       map[string]bool     `json:"detok"`
+	DetKeysLow  [][]int64           `json:"detkeyslow"`
+	DetKeysHigh [][]int64           `json:"detkeyshigh"`
 	GetBlock    map[string][]string `json:"getblock"`
 	Append      []struct {
 		S1  []string `json:"s1"`
@@ -121,6 +127,100 @@ func recsFrom(rows [][]any, codec uint64) []RefRec {
 		out = append(out, refRecOf(alphaByID[r[0].(string)].Cid, uint64(r[1].(float64)), codec))
 	}
 	return out
+}
+
+// detachList binds Cli!DetachList: `car detach-index list` over the index file det (once by path, once through standard
+// input). want is what the reference decoder reads from the same bytes (file order); keysLow/keysHigh are the
+// specification's group keys <<hash code, digest width>> for a regenerated index without / with identity CIDs
+// (nil: the records are an existing index's, only the reference order is demanded).
+func (x *cliCtx) detachList(what, det string, codec string, want []RefRec, keysLow, keysHigh [][]int64) {
+	b, _ := os.ReadFile(det)
+	for _, form := range []string{"path", "stdin"} {
+		var so, se []byte
+		var err error
+		if form == "path" {
+			so, se, err = x.run(nil, "detach-index", "list", det)
+		} else {
+			so, se, err = x.run(b, "detach-index", "list")
+		}
+		x.rep.eval(what+"/detach-list/"+codec+"/"+form, true)
+		x.rep.count("detach_list_runs", 1)
+		// C19 speaks of the emitted index, not of the listing's form: what the listing adds on its own (which codec it
+		// refuses, its line format, its order, reading from a pipe) is compared with Cli!DetachList and counted, and
+		// only an index whose records the CLI cannot give back is a violation.
+		if !x.c.DetOk[codec] {
+			if err == nil {
+				x.rep.count("detach_list_differs_from_spec/accepted-not-iterable", 1)
+			}
+			continue
+		}
+		if err != nil {
+			if form == "stdin" {
+				x.rep.count("detach_list_differs_from_spec/stdin-error: "+lastLine(se), 1)
+			} else {
+				x.viol("detach-list/error", fmt.Sprintf("%s (%s): %s", what, form, strings.TrimSpace(string(se))), nil)
+			}
+			continue
+		}
+		var got []RefRec
+		bad := ""
+		for _, ln := range strings.Split(strings.TrimRight(string(so), "\n"), "\n") {
+			if ln == "" && len(so) == 0 {
+				break
+			}
+			f := strings.Fields(ln)
+			if len(f) != 2 {
+				bad = "line not of the form <multihash> <offset>: " + ln
+				break
+			}
+			raw, e1 := hex.DecodeString(f[0])
+			off, e2 := strconv.ParseUint(f[1], 10, 64)
+			code, n1 := binary.Uvarint(raw)
+			if e1 != nil || e2 != nil || n1 <= 0 {
+				bad = "unreadable line: " + ln
+				break
+			}
+			dl, n2 := binary.Uvarint(raw[n1:])
+			if n2 <= 0 || uint64(len(raw)-n1-n2) != dl {
+				bad = "multihash with a wrong length field: " + ln
+				break
+			}
+			got = append(got, RefRec{HCode: int64(code), Digest: raw[n1+n2:], Offset: off})
+		}
+		if bad != "" {
+			x.rep.count("detach_list_differs_from_spec/format", 1)
+			continue
+		}
+		g, w := recMultiset(got), recMultiset(want)
+		if !multisetLE(g, w) || !multisetLE(w, g) {
+			x.viol("detach-list/records", fmt.Sprintf("%s (%s): listed %v, the index holds %v", what, form, g, w), nil)
+			continue
+		}
+		// order: the specification's group keys, and the reference decoder's file order inside the groups
+		keys := make([][]int64, len(got))
+		for i, r := range got {
+			keys[i] = []int64{r.HCode, int64(len(r.Digest))}
+		}
+		if keysLow != nil && fmt.Sprint(keys) != fmt.Sprint(keysLow) && fmt.Sprint(keys) != fmt.Sprint(keysHigh) {
+			x.rep.count("detach_list_differs_from_spec/group-order", 1)
+			continue
+		}
+		for i := range got {
+			if got[i].key() != want[i].key() {
+				x.rep.count("detach_list_differs_from_spec/order", 1)
+				break
+			}
+		}
+	}
+}
+
+func lastLine(b []byte) string {
+	l := strings.Split(strings.TrimSpace(string(b)), "\n")
+	s := l[len(l)-1]
+	if i := strings.Index(s, " seek "); i >= 0 { // drop the log timestamp
+		s = s[i+1:]
+	}
+	return s
 }
 
 func multisetLE(a, b map[string]int) bool {
@@ -300,6 +400,8 @@ func runCliCase(x *cliCtx, sample func(string) bool) {
 					h, _ := refParseV2(got)
 					if h == nil || !bytes.Equal(d, h.Index) {
 						x.viol("detach/bytes", "detach-index output differs from the embedded index bytes", nil)
+					} else if ix, err := refDecodeIndex(d); err == nil {
+						x.detachList("index", det, outArch.Idx, ix.Recs, c.DetKeysLow, c.DetKeysHigh)
 					}
 				}
 			}
@@ -338,6 +440,8 @@ func runCliCase(x *cliCtx, sample func(string) bool) {
 			x.viol("detach/error", strings.TrimSpace(string(se)), nil)
 		} else if d, _ := os.ReadFile(det); !bytes.Equal(d, c.A.indexBytes()) {
 			x.viol("detach/bytes", "detach-index output differs from the input's index bytes", nil)
+		} else if ix, err := refDecodeIndex(d); err == nil {
+			x.detachList("input", det, c.A.Idx, ix.Recs, nil, nil)
 		}
 	}
 	// get-block
